@@ -822,7 +822,12 @@ func c02FiltersExtracted(p *Prog, r *Report, rule string) {
 			for _, g := range Guards(c.Block()) {
 				var ops []ssa.Value
 				if bo, isB := g.Cond.(*ssa.BinOp); isB {
-					if _, _, isNil := nilTest(bo); isNil {
+					if x, _, isNil := nilTest(bo); isNil {
+						// the filters restrict the payload whether or not the optional function element names it again:
+						// without them a partial or delete command is executed as a full replacement
+						if strings.HasSuffix(Path(x), ".Function") {
+							bad = "the extraction is conditioned on the command's optional function element (" + guardDesc([]Guard{g}) + ")"
+						}
 						continue // "a classifier is present at all" is no distinction between classifiers
 					}
 					ops = []ssa.Value{bo.X, bo.Y}
